@@ -387,26 +387,39 @@ class TypeChecker(walkers.dag.DagWalker):
                 "Equality operator is not supported for Boolean"
                 " terms. Use Iff instead." % str(expression)
             )
+        def family(tp) -> str:
+            if tp.is_int_type() or tp.is_real_type() or tp.is_time_type():
+                return "numeric"
+            if tp.is_user_type():
+                return "user"
+            return "other"
+
         for x in args:
             if x is None:
                 return None
-            elif (
+            if x.is_bool_type():
+                # same verdict whichever side the Boolean term is on
+                raise UPTypeError(
+                    "The expression '%s' is not well-formed."
+                    "Equality operator is not supported for Boolean"
+                    " terms. Use Iff instead." % str(expression)
+                )
+            if family(x) != family(t):
+                return None
+            if (
                 t.is_user_type()
                 and t != x
                 and not t.is_compatible(x)
                 and not x.is_compatible(t)
             ):
                 # check if t and x have at least one common ancestor
-                t = cast(_UserType, t)
-                if x.is_user_type():
-                    x = cast(_UserType, x)
-                    x_ancestors = set(x.ancestors)
-                    if all(t_ancestor not in x_ancestors for t_ancestor in t.ancestors):
-                        return None
-            elif (t.is_int_type() or t.is_real_type()) and not (
-                x.is_int_type() or x.is_real_type()
-            ):
-                return None
+                t_user = cast(_UserType, t)
+                x_user = cast(_UserType, x)
+                x_ancestors = set(x_user.ancestors)
+                if all(
+                    t_ancestor not in x_ancestors for t_ancestor in t_user.ancestors
+                ):
+                    return None
         return BOOL
 
     @walkers.handles(OperatorKind.DOT)
